@@ -176,7 +176,24 @@ class C20(Prop):
     id = "C20"
     driver = "C20"
     lean_modules = ["Pfb.C20.Props", "Pfb.PyCore.Json"]
-    theorems = []
+    theorems = [
+        "Pfb.C20.C20_symbol_effects",
+        "Pfb.C20.C20_effects",
+        "Pfb.C20.C20_effects_cases",
+        "Pfb.C20.C20_readonly",
+        "Pfb.PyCore.symbolNeedsImport_spec",
+    ]
+    rule = ("find_missing_imports(code, namespaces) with code = a dotted name of depth 1-5, a generated mini-Python program "
+            "(source) or its ast; namespaces = 1-3 dicts populated with trap objects (recording __getattribute__, properties, "
+            "__eq__, __hash__, __bool__, __len__, __iter__, __call__, __repr__; ModuleType subclasses; proxies), None and ints; "
+            "a registry (sys.modules entries for a private universe ta/tb/tc) that is mostly, not always, consistent with the "
+            "attribute graph; objects that are nobody's registry entry raise on any touch; a recording sys.meta_path finder. "
+            "non-trivial = at least one recorded event or one reported name; distinct by code+namespaces+registry")
+    trusted_base = ["the trap classes of harness/c20.py record every attribute access except `__class__` (the isinstance() fallback, "
+                    "stated outside the quantifier); plain ints/None cannot record",
+                    "debug logging stays off (repr of namespace values under DEBUG is outside the quantifier)"]
+    assumptions = ["namespaces are real dicts with str keys (dict subclasses with user __getitem__/__missing__ are not in the quantifier)",
+                   "the theorems hold for the unchanged analysis and for the analysis carrying the proposed C05 repairs (all `Fixes`)"]
     anchors = [
         ("lib/python/pyflyby/_autoimp.py", "ScopeStack"),
         ("lib/python/pyflyby/_autoimp.py", "symbol_needs_import"),
